@@ -42,7 +42,15 @@ def py_targets(prop):
 def run_pyvc(ctx, prop, mode="normal", skip=None):
     t = [x for x in py_targets(prop) if not (skip and skip(x))]
     if t:
-        res = ctx.pyvc(t, mode=mode)
         from lib import replay
-        replay.replay_python(ctx, res)
+        # functions with a solver pool of their own ("heavy") first and by themselves: run together with a dozen other
+        # functions they oversubscribe the cores, queries hit their time limits, and z3 5.1.0 has crashed when a query
+        # is cancelled at its limit (DESIGN 13.5)
+        from pyvc.run import all_contracts
+        cons = all_contracts()
+        heavy = [x for x in t if cons[x].ghost.get("heavy")]
+        light = [x for x in t if x not in heavy]
+        for batch in ([heavy] if heavy and light and len(light) > 4 else []) + ([light] if heavy and light and len(light) > 4 else [t]):
+            res = ctx.pyvc(batch, mode=mode)
+            replay.replay_python(ctx, res)
     return t
